@@ -136,6 +136,30 @@ def run(ctx):
             call("admm_optimize_theta[%s]" % order, lambda: admm.admm_optimize_theta(S, lam, W, N), [S, lam])
             tab = ro(rng.normal(size=(T, K)), order)
             call("assign_point_cluster_labels[%s]" % order, lambda: cla.assign_point_cluster_labels(label_assignment_cost=tab, label_switching_cost=beta), [tab, beta])
+            # the labelling step as a library function: a model state whose matrices the caller built (either memory order,
+            # read-only or writable) and data to label; none of the caller's arrays may change, whether it returns or raises
+            from fast_ticc.containers import arguments as _arg, model_state as _ms
+            from fast_ticc import likelihood as _lk
+            ua = _arg.UserArguments(sparsity_weight=0.11, iteration_limit=2, label_switching_cost=beta if not isinstance(beta, np.ndarray) else ro(np.asarray(beta)),
+                                    min_cluster_size=1, min_meaningful_covariance=0, num_clusters=K, num_processors=1, biased_covariance=False, window_size=W)
+            from fast_ticc import data_preparation as _dp
+            stacked = ro(_dp.stack_training_data(np.asarray(data), W), order)
+            mstate = _ms.ModelState.empty_model(ua, stacked)
+            owned = [stacked]
+            for kk, cl in enumerate(mstate.clusters):
+                a = rng.normal(size=(n + 2, n))
+                th = a.T @ a / (n + 2) + (0.5 + kk) * np.eye(n)
+                cl.train_inverse = ro(th, order)
+                cl.computed_covariance = ro(np.linalg.inv(th), order)
+                cl.empirical_covariance = ro(np.linalg.inv(th), order)
+                cl.stacked_data_mean = ro(np.asarray(stacked).mean(axis=0) + kk)
+                owned += [cl.train_inverse, cl.computed_covariance, cl.empirical_covariance, cl.stacked_data_mean]
+            if isinstance(ua.label_switching_cost, np.ndarray):
+                owned.append(ua.label_switching_cost)
+            call("all_points_all_clusters_log_likelihood[%s]" % order, lambda: _lk.all_points_all_clusters_log_likelihood(mstate, stacked), owned)
+            call("predict_cluster_labels[%s]" % order, lambda: cla.predict_cluster_labels(mstate, stacked), owned)
+            bad_data = ro(np.asarray(stacked)[:, :-1] if n > 1 else np.zeros((3, 2)), order)
+            call("predict_cluster_labels failing[%s]" % order, lambda: cla.predict_cluster_labels(mstate, bad_data), owned + [bad_data], expect_fail=True)
             M = ro(rng.normal(size=(n, n)))
             call("_zero_small_elements(copy=True)", lambda: gl._zero_small_elements(M, 0.5), [M])
         WRITABLE[0] = False
